@@ -28,6 +28,8 @@ type Input struct {
 	mu     sync.Mutex
 	eof    bool
 	inited bool
+	skipNL bool  // the end-of-line characters that directly follow the last line are still to be dropped
+	rderr  error // the reader's (non EOF) error, reported by every later call
 }
 
 // NewInputSize returns a new Input whose buffer has at least the specified
@@ -55,24 +57,38 @@ func NewAppInput(rd io.Reader) app.Input {
 	return app.Input(NewInputSize(rd, defaultBufSize))
 }
 
+// fill reads the next chunk into the (used up) buffer. It returns io.EOF at the end of the stream.
 func (in *Input) fill() error {
-	// Slide existing data to beginning.
-	if in.r > 0 {
-		copy(in.buf, in.buf[in.r:in.w])
-		in.w -= in.r
-		in.r = 0
+	if in.eof {
+		return io.EOF
 	}
-	if in.w >= len(in.buf) {
-		panic("gio.Input.fill: tried to fill full buffer")
+	if in.rderr != nil {
+		return in.rderr
 	}
+	in.r, in.w = 0, 0
 	// Read new data: try a limited number of times.
 	for i := maxConsecutiveEmptyReads; i > 0; i-- {
-		n, err := in.rd.Read(in.buf[in.w:])
+		n, err := in.rd.Read(in.buf)
 		if n < 0 {
+			in.rderr = errNegativeRead
 			return errNegativeRead
 		}
-		in.w += n
+		in.w = n
+		if err == io.EOF {
+			// the reader may hand over its last bytes together with io.EOF
+			in.eof = true
+			in.rd = nil
+			if n > 0 {
+				return nil
+			}
+			in.buf = nil
+			return io.EOF
+		}
 		if err != nil {
+			in.rderr = err
+			if n > 0 {
+				return nil
+			}
 			return err
 		}
 		if n > 0 {
@@ -82,127 +98,109 @@ func (in *Input) fill() error {
 	return io.ErrNoProgress
 }
 
-// ReadWord return next word from input stream
-func (in *Input) ReadWord() (s string, err error) {
+// peek returns the next byte of the stream without consuming it (in.r++ consumes it).
+func (in *Input) peek() (c byte, err error) {
+	for in.r >= in.w {
+		if err = in.fill(); err != nil {
+			return 0, err
+		}
+	}
+	return in.buf[in.r], nil
+}
+
+// dropPendingEOL drops the end-of-line characters that directly follow the line returned last. It is done
+// lazily, at the start of the next call, so that ReadLine never waits for input it does not return.
+func (in *Input) dropPendingEOL() {
+	for in.skipNL {
+		c, err := in.peek()
+		if err != nil || !isNewLine(c) {
+			in.skipNL = false
+			return
+		}
+		in.r++
+	}
+}
+
+// Read reads the next bytes of the stream (after everything ReadWord and ReadLine have consumed).
+func (in *Input) Read(p []byte) (n int, err error) {
 	in.mu.Lock()
 	defer in.mu.Unlock()
-	if in.eof {
-		return "", io.EOF
+	if len(p) == 0 {
+		return 0, nil
 	}
-	if !in.inited {
-		in.fill()
-		in.inited = true
+	in.dropPendingEOL()
+	if _, err = in.peek(); err != nil {
+		return 0, err
 	}
-LoopSkipWhiteAtBeginOfString:
-	for isWhiteChar(in.buf[in.r]) {
-		for ; in.r < in.w; in.r++ {
-			if !isWhiteChar(in.buf[in.r]) {
-				break LoopSkipWhiteAtBeginOfString
-			}
+	n = copy(p, in.buf[in.r:in.w])
+	in.r += n
+	return n, nil
+}
+
+// ReadWord return next word from input stream
+func (in *Input) ReadWord() (s string, err error) {
+	var (
+		c    byte
+		word []byte
+	)
+	in.mu.Lock()
+	defer in.mu.Unlock()
+	in.dropPendingEOL()
+	for {
+		if c, err = in.peek(); err != nil {
+			return "", err
 		}
-		if err = in.fill(); err != nil {
+		if !isWhiteChar(c) {
+			break
+		}
+		in.r++
+	}
+	for {
+		if c, err = in.peek(); err != nil {
 			if err == io.EOF {
-				in.buf = nil
-				in.rd = nil
-				in.eof = true
+				return string(word), io.EOF
 			}
 			return "", err
 		}
-	}
-	offset := 0
-	filled := false
-	pos := in.r + offset
-	for {
-		for pos < in.w {
-			if isWhiteChar(in.buf[pos]) {
-				s := string(in.buf[in.r:pos])
-				in.r = pos
-				return s, nil
-			}
-			offset++
-			pos = in.r + offset
+		if isWhiteChar(c) {
+			return string(word), nil
 		}
-		if filled {
-			if in.eof {
-				s := string(in.buf[in.r:pos])
-				in.r = pos
-				in.buf = nil
-				in.rd = nil
-				return s, io.EOF
-			}
-			return "", errBufforFull
-		}
-		filled = true
-		if err = in.fill(); err != nil {
-			if err == io.EOF {
-				in.eof = true
-			} else {
-				return "", err
-			}
-		}
-		pos = in.r + offset
+		word = append(word, c)
+		in.r++
 	}
 }
 
 // ReadLine return next line from input stream
 func (in *Input) ReadLine() (s string, err error) {
+	var (
+		c    byte
+		line []byte
+	)
 	in.mu.Lock()
 	defer in.mu.Unlock()
-	if in.eof {
-		return "", io.EOF
-	}
-	if !in.inited {
-		in.fill()
-		in.inited = true
-	}
-LoopSkipWhiteAtBeginOfString:
-	for isSeparateChar(in.buf[in.r]) {
-		for ; in.r < in.w; in.r++ {
-			if !isSeparateChar(in.buf[in.r]) {
-				break LoopSkipWhiteAtBeginOfString
-			}
-		}
-		if err = in.fill(); err != nil {
+	in.dropPendingEOL()
+	for {
+		if c, err = in.peek(); err != nil {
 			return "", err
 		}
+		if !isSeparateChar(c) {
+			break
+		}
+		in.r++
 	}
-	offset := 0
-	filled := false
-	pos := in.r + offset
 	for {
-		for pos < in.w {
-			if isNewLine(in.buf[pos]) {
-				s := string(in.buf[in.r:pos])
-				in.r = pos
-				in.skipEOLChars()
-				return s, nil
-			}
-			offset++
-			pos = in.r + offset
-		}
-		if filled {
-			if in.eof {
-				s := string(in.buf[in.r:pos])
-				in.r = pos
-				in.buf = nil
-				in.rd = nil
-				return s, io.EOF
-			}
-			return "", errBufforFull
-		}
-		filled = true
-		if err = in.fill(); err != nil {
+		if c, err = in.peek(); err != nil {
 			if err == io.EOF {
-				in.eof = true
-			} else {
-				return "", err
+				return string(line), io.EOF
 			}
+			return "", err
 		}
-		pos = in.r + offset
-	}
-}
-
-func (in *Input) skipEOLChars() {
-	for ; isNewLine(in.buf[in.r]) && in.r < in.w; in.r++ {
+		if isNewLine(c) {
+			in.r++
+			in.skipNL = true
+			return string(line), nil
+		}
+		line = append(line, c)
+		in.r++
 	}
 }
